@@ -204,6 +204,11 @@ Definition dispatch_rtp (op : Z) (args : list tok) : value :=
     | None => VBad
     end
   | 301, [w] => match t_wire w with Some w => VBytes (encode w) | None => VBad end
+  | 305, [w; TBytes wire] =>
+    (* the Spec/Rfc3550.v encoding of the description (the case's own bytes when it holds a reserved
+       id 15, which the grammar of the spec does not produce), then the decoder model on it *)
+    let bs := match t_wire w with Some ww => encode ww | None => wire end in
+    VList [VBytes bs; VList (pkt_unmarshal_seq empty_packet [bs])]
   | 302, [TBytes buf; TList ids] =>        (* one-byte view *)
     match opt_map t_int ids with
     | Some ids =>
